@@ -8,7 +8,7 @@
 (* C01 (walk = history, parent rights), C02 (errors are no-ops, no phantom *)
 (* success), C09 (allocation bounds, tree shape) and C10 (clean-up).       *)
 (***************************************************************************)
-EXTENDS PageTables
+EXTENDS PageTables, Json
 
 CONSTANTS I4, I3, I2, I1,      \* index universes per level
           NTF,                 \* number of table frames in the allocator pool
@@ -20,10 +20,15 @@ VARIABLE last                  \* the last call and its outcome (hidden from the
 
 RNone == 0 - 1                                            \* cfg: RIdx <- RNone (no recursive slot)
 RootFrame == W(1048576)                                   \* 0x100000
-TableFrames == { W(4096 * k) : k \in 1 .. NTF }           \* 0x1000, 0x2000, ...
+(* allocator pool, handed out in ascending order: the first new table gets 0x1000, the second a
+   1 GiB-aligned frame, the third a 2 MiB-aligned one - so a level-2 table can sit in a frame that
+   would be a valid 1 GiB data frame and a level-1 table in one that would be a valid 2 MiB data
+   frame (the interesting case for operations of the wrong size on a table-pointer slot) *)
+TableFramePool == << W(4096), W(1073741824), W(1073741824 + 2097152), W(8192), W(12288) >>
+TableFrames == { TableFramePool[k] : k \in 1 .. NTF }
 DataFrames(s) == CASE s = 0 -> { W(36864), W(40960) }     \* 0x9000, 0xa000
                    [] s = 1 -> { W(6291456) }             \* 0x600000
-                   [] s = 2 -> { W(1073741824) }          \* 0x40000000
+                   [] s = 2 -> { Shl(W(1), 31) }          \* 0x80000000
 
 Pages(s) == CASE s = 0 -> { FromIndices(0, a, b, c, d) : a \in I4, b \in I3, c \in I2, d \in I1 }
               [] s = 1 -> { FromIndices(1, a, b, c, 0) : a \in I4, b \in I3, c \in I2 }
@@ -55,7 +60,8 @@ Init ==
     /\ amap = << >>
     /\ free = TableFrames
     /\ lastClean = << >>
-    /\ last = [op |-> "init", s |-> 0, page |-> ZeroW, kind |-> "Ok", used |-> 0, PF |-> {}, K |-> 0]
+    /\ last = [op |-> "init", s |-> 0, page |-> ZeroW, kind |-> "Ok", used |-> 0, PF |-> {}, K |-> 0,
+               frame |-> ZeroW, F |-> {}, allocs |-> << >>, b |-> ZeroW]
 
 MapAct ==
     \E s \in SizeClass : \E page \in Pages(s) : \E frame \in DataFrames(s) :
@@ -72,24 +78,24 @@ MapAct ==
               /\ lastClean' = << >>
               /\ \E kd \in r.kinds :
                    last' = [op |-> "map", s |-> s, page |-> page, kind |-> kd, used |-> r.used,
-                            PF |-> PF, K |-> 0]
+                            PF |-> PF, K |-> 0, frame |-> frame, F |-> F, allocs |-> allocs, b |-> ZeroW]
               /\ UNCHANGED <<root, rix>>
 
-Simple(op, r, s, page, K) ==
+Simple(op, r, s, page, K, F) ==
     /\ ent' = r.m /\ amap' = r.am
     /\ \E kd \in r.kinds : last' = [op |-> op, s |-> s, page |-> page, kind |-> kd, used |-> 0,
-                                   PF |-> {}, K |-> K]
+                                   PF |-> {}, K |-> K, frame |-> ZeroW, F |-> F, allocs |-> << >>, b |-> ZeroW]
     /\ lastClean' = << >>
     /\ UNCHANGED <<root, rix, free>>
 
 UnmapAct == \E s \in SizeClass : \E page \in Pages(s) :
-                Simple("unmap", UnmapSem(ent, amap, s, page), s, page, 0)
+                Simple("unmap", UnmapSem(ent, amap, s, page), s, page, 0, {})
 UpdateAct == \E s \in SizeClass : \E page \in Pages(s) : \E F \in LeafFs :
-                Simple("update", UpdateSem(ent, amap, s, page, F), s, page, 0)
+                Simple("update", UpdateSem(ent, amap, s, page, F), s, page, 0, F)
 SetFlagsAct == \E s \in SizeClass : \E page \in Pages(s) : \E K \in 2 .. 4 : \E F \in ParentFs :
-                Simple("setflags", SetFlagsSem(ent, amap, s, page, K, F), s, page, K)
+                Simple("setflags", SetFlagsSem(ent, amap, s, page, K, F), s, page, K, F)
 TranslatePageAct == \E s \in SizeClass : \E page \in Pages(s) :
-                Simple("translate_page", TranslatePageSem(ent, amap, s, page), s, page, 0)
+                Simple("translate_page", TranslatePageSem(ent, amap, s, page), s, page, 0, {})
 
 (* ranges: whole address space, every pair a <= b of 4 KiB pages of the universe (+ the page
    after each), and one reversed (empty) range *)
@@ -105,7 +111,7 @@ CleanAct ==
           /\ free' = free \cup D
           /\ lastClean' = << rg[1], rg[2] >>
           /\ last' = [op |-> "clean", s |-> Cardinality(D), page |-> rg[1], kind |-> "Ok", used |-> 0,
-                      PF |-> {}, K |-> 0]
+                      PF |-> {}, K |-> 0, frame |-> ZeroW, F |-> {}, allocs |-> << >>, b |-> rg[2]]
           /\ UNCHANGED <<root, rix, amap>>
 
 Next == MapAct \/ UnmapAct \/ UpdateAct \/ SetFlagsAct \/ TranslatePageAct \/ CleanAct
@@ -113,6 +119,15 @@ Next == MapAct \/ UnmapAct \/ UpdateAct \/ SetFlagsAct \/ TranslatePageAct \/ Cl
 Spec == Init /\ [][Next]_<<vars, last>>
 
 View == vars
+
+(* Stimuli for specification -> implementation replay: one line per explored transition with the
+   pre-state (table memory as <<frame, index, entry>> triples, free frames) and the call.      *)
+MemTriples(m) == UNION { { << f, i, m[f][i].addr, m[f][i].flags >> : i \in DOMAIN m[f] } : f \in DOMAIN m }
+StimDump ==
+    PrintT(<< "STIM", ToJson([ root |-> root, rix |-> rix, mem |-> MemTriples(ent), free |-> free, tables |-> TableFramesOf(ent),
+                                op |-> last'.op, s |-> last'.s, page |-> last'.page, frame |-> last'.frame,
+                                F |-> last'.F, PF |-> last'.PF, K |-> last'.K, allocs |-> last'.allocs,
+                                b |-> last'.b ]) >>)
 
 -----------------------------------------------------------------------------
 (* state invariants *)
